@@ -145,6 +145,8 @@ namespace detail {
 		const Harness* h;
 		Run* run;
 		int curFd = -1;
+		uint64_t shrinkEvals = 0;
+		uint64_t shrinkBudget = 4000;
 	};
 
 	inline void writeCurrent(Ctx* c, const uint8_t* p, size_t n) {
@@ -159,6 +161,14 @@ namespace detail {
 	inline int propThunk(const uint8_t* p, size_t n, void* vctx) {
 		auto c = static_cast<Ctx*>(vctx);
 		Run& run = *c->run;
+		// Bound the shrinking effort: once a failing case is recorded, at most shrinkBudget further
+		// evaluations are spent on shrinking it; later candidates are answered "passes" unevaluated,
+		// which ends rapidcheck's search with the smallest failing case found so far.
+		if (run.haveCandidate && run.phase == "random") {
+			if (c->shrinkEvals >= c->shrinkBudget)
+				return 0;
+			c->shrinkEvals++;
+		}
 		run.evaluations++;
 		run.curTape = p;
 		run.curTapeLen = n;
@@ -300,6 +310,8 @@ inline int harnessMain(int argc, char** argv, const Harness& h) {
 		const int maxRounds = args.tier == "thorough" ? 4 : 2;
 		for (int round = 0; round < maxRounds; round++) {
 			run.haveCandidate = false;
+			ctx.shrinkEvals = 0;
+			ctx.shrinkBudget = args.tier == "thorough" ? 20000 : 4000;
 			int ok = vf_rc_check(h.id, detail::propThunk, &ctx, h.maxTape);
 			if (ok)
 				break;
